@@ -27,6 +27,7 @@ import (
 func (m *MTProto) makeAuthKey() error { // nolint don't know how to make method smaller
 	m.serviceModeActivated = true
 	nonceFirst := tl.RandomInt128()
+	verifGate("hs.nonce", nonceFirst)
 	res, err := m.reqPQ(nonceFirst)
 	if err != nil {
 		return errors.Wrap(err, "requesting first pq")
@@ -50,6 +51,7 @@ func (m *MTProto) makeAuthKey() error { // nolint don't know how to make method 
 	pq := big.NewInt(0).SetBytes(res.Pq)
 	p, q := math.SplitPQ(pq)
 	nonceSecond := tl.RandomInt256()
+	verifGate("hs.new_nonce", nonceSecond)
 	nonceServer := res.ServerNonce
 
 	message, err := tl.Marshal(&objects.PQInnerData{
